@@ -19,6 +19,89 @@ CHECKS = {
         design="5/C06",
         note="Trusted: TLC, the harness replay/recorder code, cffi. Bounded: model constants (2-3 handlers, sizes "
              "3/6/12, MaxCounter 1-2); histories are seeded samples, not all histories."),
+    "C04": dict(
+        technique="trace validation of recorded thinned events of real runs against TraceEcmc.tla (TLC) on order-preserving float keys",
+        text="Every thinned event of the recorded runs of all shipped configurations (bounding rate, true rate and the uniform "
+             "draw observed at the handler boundary) is judged by TLC: velocities change iff the draw is below the true rate and "
+             "the true rate is positive, a rejected event leaves every velocity equal to the global state, the bounding rate is "
+             "positive where the true rate is, the confirmation rate is the sum of the positive pair bounds the event was "
+             "proposed with, and the true rate never exceeds the nearest-image 1/r bound on the handlers configured with it.",
+        design="5/C04",
+        note="Decided on the separations visited by the recorded runs only; the supremum over the continuum of separations is "
+             "not decided by this family (DESIGN.md 5/C04, 6). Trusted: recorder wrappers, F64 keys."),
+    "C07": dict(
+        technique="trace validation of recorded runs against TraceEcmc.tla (TLC): tracked global state, measured advance residuals",
+        text="All commits of recorded runs of every runnable shipped configuration and of generated variants are replayed "
+             "against the run-level state machine; at each commit TLC checks monotone times, fixed inactive units, advance by "
+             "velocity * elapsed time (residual measured exactly), one moving chain with one velocity of the initial speed, "
+             "positions in the box, unchanged identities and charges.",
+        design="5/C07",
+        note="Seeded runs (300 legs quick, 3000 x 3 seeds thorough), not all histories. Trusted: recorder, Fractions."),
+    "C08": dict(
+        technique="TLA+ model checking (TLC) of Ecmc.tla on the tagger graph of each shipped configuration + trace validation "
+                  "of recorded runs against TraceEcmc.tla (motion versions)",
+        text="Design: Ecmc.tla explores every leg sequence of the abstract run whose constants are read from the objects the "
+             "real factory builds from each .ini; a candidate computed from an outdated trajectory or active cell that survives "
+             "the trash step is a counterexample. Code: in recorded runs every commit of an interaction / cell-veto handler "
+             "must carry the motion versions of its in-state units as they were when its candidate was computed, and no stale "
+             "candidate may remain after any trash step.",
+        design="5/C08",
+        note="Design model abstracts times and positions (any pending candidate may fire); quick tier bounds the largest "
+             "configuration's exploration. Runs are seeded samples."),
+    "C09": dict(
+        technique="TLA+ model checking (TLC) of Ecmc.tla per shipped configuration + trace validation of recorded runs against "
+                  "TraceEcmc.tla (pending multiset vs fresh generators)",
+        text="Design: after every leg of the abstract run the pending candidates of each tagger equal what its generator yields "
+             "from scratch (multiset of in-states for interaction taggers, counts for the others) and no pool runs dry. Code: "
+             "after every real get_event_handlers_to_run the recorder re-invokes every tagger's generator on the same state and "
+             "TLC compares it with the running handlers tracked from the activator's returns and trash lists.",
+        design="5/C09",
+        note="Same bounds as C08. The two .pdb configurations cannot be built offline (MDAnalysis absent) and are not covered."),
+    "C10": dict(
+        technique="TLA+ model checking (TLC) of CellOcc.tla and FactorMap.tla + replay of model behaviours / tables into the real "
+                  "occupancy, tagger generators and FactorTypeMaps",
+        text="CellOcc.tla transcribes SingleActiveCellOccupancy and the generators of the excluded-cells, surplus and "
+             "cell-veto/cell-bounding families; TLC checks that their targets partition the other relevant units in every "
+             "reachable state of five configurations, and simulation behaviours are replayed into the real classes with the "
+             "real generators. FactorMap.tla enumerates well-formed factor files; each is written to disk and read by the real "
+             "FactorTypeMaps, whose in-states must equal the model's.",
+        design="5/C10",
+        note="Ring of 3-6 cells, 4 units; factor files with one local and one inter-object factor."),
+    "C11": dict(
+        technique="TLA+ model checking (TLC) of CellOcc.tla / Ecmc.tla + replay into SingleActiveCellOccupancy + trace "
+                  "validation of recorded cell runs against TraceEcmc.tla",
+        text="Component: CellOcc.tla (mirror, capacity, active-separate, no-empty-surplus) exhaustively and by replay. Design: "
+             "Ecmc.tla per cell configuration (bookkeeping mirrors the true cells, a cell-boundary candidate is pending for the "
+             "tracked unit, update never fails). Code: at every leg of recorded cell runs the occupancy read from the object is "
+             "compared with the cell of every relevant unit's exactly advanced position.",
+        design="5/C11",
+        note="The cell containing a position is decided on exact rationals against the recorded extents (C16 covers extents)."),
+    "C12": dict(
+        technique="trace validation of recorded composite-object runs against TraceEcmc.tla (TLC) with exactly measured residuals",
+        text="At every commit of recorded dipole, water and hard-disk-dipole runs TLC checks that a composite object has a "
+             "velocity iff one of its point masses has, and that the measured residuals of root velocity vs weighted sum and of "
+             "root position vs weighted nearest-image barycentre (both advanced to the event time in exact rationals) stay within "
+             "the stated bounds.",
+        design="5/C12",
+        note="Seeded runs; residual bounds 1e-12 speed and 2^-30 L."),
+    "C13": dict(
+        technique="TLA+ model checking (TLC) of StateTree.tla (object identity) + replay of simulation behaviours into the real "
+                  "TreeStateHandler + run-level clauses of TraceEcmc.tla",
+        text="StateTree.tla models references of positions, velocities and time stamps; TLC checks isolation, exact insert, "
+             "branch shape and the active rule to bounded depth, and 900+ simulated behaviours over four tree shapes are "
+             "replayed into the real TreeStateHandler comparing the global state, every live branch and the active set after "
+             "each action. In recorded runs every in-state must carry the tracked global values and the global state must not "
+             "change between commits.",
+        design="5/C13",
+        note="Depth-bounded exhaustive exploration; field values from small sets."),
+    "C17": dict(
+        technique="trace validation of recorded runs against TraceEcmc.tla (TLC): sample/end times on keys, measured drift",
+        text="For every state handed to an output handler in recorded runs TLC checks that it is id-for-id the global state after "
+             "the sampling commit, that every moving unit carries the sampling time, that sampling times increase and drift from "
+             "k * interval by at most one rounding per step (measured exactly), that the run ends at the configured time and "
+             "that the number of samples is the number of sampling times before the end.",
+        design="5/C17",
+        note="Runs with shortened end times and varied intervals; ties of sample and end time are inconclusive."),
     "C05": dict(
         technique="TLA+ model checking (TLC) of Lifting.tla + spec->code replay of every model evaluation into the real lifting classes",
         text="Lifting.tla transcribes Lifting.insert/reset and the three get_active_identifier on integer rates; TLC evaluates "
